@@ -67,7 +67,7 @@ def IsCall : Expr → Prop
   | _ => False
 
 def Allowed (il : Bool) : Stmt → Prop
-  | .skip | .inc _ | .dec _ | .define _ _ | .assign _ _ | .discard _ | .ret _ => True
+  | .skip | .inc _ | .dec _ | .define _ _ | .assign _ _ | .discard _ | .panicS _ | .ret _ => True
   | .seq a b => Allowed il a ∧ Allowed il b
   | .opAssign _ op _ => Strict op
   | .varDecl _ _ none => True
@@ -818,6 +818,9 @@ theorem stmtFOK_succ (P : Prog) (C : Code) (cx : Ctx) (fuel : Nat)
     | overflow => rw [hv] at hex; simp at hex
     | stuck => rw [hv] at hex; simp at hex
     | timeout => rw [hv] at hex; simp at hex
+  | panicS e =>
+    simp only [exec] at hex
+    cases hv : evalE fuel P env e <;> rw [hv] at hex <;> simp at hex
   | ret e =>
     cases e with
     | none =>
